@@ -56,6 +56,24 @@ theorem prefix_sums_exact (l : List Int) (hb : ∀ v ∈ l, v.natAbs ≤ 2 ^ 32)
   have h3 : (l.take k).length * 2 ^ 32 ≤ 2 ^ 20 * 2 ^ 32 := Nat.mul_le_mul_right _ hlen
   omega
 
+/-- PowerDiff, with the float arithmetic modelled (`round53`, `fadd`): accumulating the absolute differences in ANY
+iteration order gives exactly the integer sum, when the per-member differences are at most 2^32 and there are at most
+2^20 members — no rounding ever happens -/
+theorem fsumAbs_exact (l : List Int) (hb : ∀ v ∈ l, v.natAbs ≤ 2 ^ 32) (hn : l.length ≤ 2 ^ 20) : fsumAbs l = absSum l := by
+  have h1 := FxVerif.Proofs.C17.absSum_le_of_bound l hb
+  have h3 : l.length * 2 ^ 32 ≤ 2 ^ 20 * 2 ^ 32 := Nat.mul_le_mul_right _ hn
+  have := FxVerif.Proofs.C17.foldl_fadd_exact l 0 (by omega)
+  simpa [fsumAbs] using this
+
+/-- … hence the float the loop computes is the same for every iteration order of the map -/
+theorem fsumAbs_perm {l₁ l₂ : List Int} (h : l₁.Perm l₂) (hb : ∀ v ∈ l₁, v.natAbs ≤ 2 ^ 32) (hn : l₁.length ≤ 2 ^ 20) :
+    fsumAbs l₁ = fsumAbs l₂ := by
+  rw [fsumAbs_exact l₁ hb hn, fsumAbs_exact l₂ (fun v hv => hb v (h.mem_iff.mpr hv)) (by rw [← h.length_eq]; exact hn)]
+  exact absSum_perm h
+
+/-- the magnitude bound is needed: beyond 2^53 float accumulation depends on the order -/
+theorem fsumAbs_order_matters_beyond_2_53 : fsumAbs [2 ^ 53, 1, 1] ≠ fsumAbs [1, 1, 2 ^ 53] := by decide
+
 /-- collect-then-sort with distinct keys: any two strictly sorted arrangements of the same entries are equal, so the
 result of *any* correct sort (Go's unstable `sort.Slice` included) is independent of the collection order -/
 theorem sorted_perm_unique {α : Type} (lt : α → α → Prop) (asymm : ∀ a b, lt a b → ¬ lt b a) :
@@ -179,6 +197,23 @@ theorem memo_process_history_irrelevant (f : String → Nat) (evs₁ evs₂ : Li
     (fun m s i hm => (key m s i hm).2)
     (fun m m' s i hm hm' => by rw [(key m s i hm).1, (key m' s i hm').1]) evs₁ evs₂ hb _ _ rfl v₁ v₂
 
+/-- two replicas running different binaries of the same code (`h₁`, `h₂`) with their own memories and process histories
+agree on final state and delivered outputs whenever the block histories are equal and the handlers agree on state effect
+and output under the memory invariants -/
+theorem replicas_agree {M₁ M₂ S I O : Type} (r₁ : Replica M₁ S I O) (r₂ : Replica M₂ S I O)
+    (Inv₁ : M₁ → Prop) (Inv₂ : M₂ → Prop) (i₁ : Inv₁ r₁.m₀) (i₂ : Inv₂ r₂.m₀)
+    (p₁ : ∀ m s i, Inv₁ m → Inv₁ (r₁.h m s i).1) (p₂ : ∀ m s i, Inv₂ m → Inv₂ (r₂.h m s i).1)
+    (hag : ∀ m₁ m₂ s i, Inv₁ m₁ → Inv₂ m₂ → (r₁.h m₁ s i).2 = (r₂.h m₂ s i).2)
+    (hb : blocksOf r₁.evs = blocksOf r₂.evs) (s : S) : r₁.run s = r₂.run s := by
+  have a₁ := FxVerif.Proofs.C17.run_eq_pure r₁.h r₁.m₀ Inv₁ i₁ p₁
+    (fun m m' s i hm hm' => (hag m r₂.m₀ s i hm i₂).trans (hag m' r₂.m₀ s i hm' i₂).symm) r₁.evs ⟨r₁.m₀, s⟩ i₁
+  have a₂ := FxVerif.Proofs.C17.run_eq_pure r₂.h r₂.m₀ Inv₂ i₂ p₂
+    (fun m m' s i hm hm' => (hag r₁.m₀ m s i i₁ hm).symm.trans (hag r₁.m₀ m' s i i₁ hm')) r₂.evs ⟨r₂.m₀, s⟩ i₂
+  have c := FxVerif.Proofs.C17.runPure_congr r₁.h r₂.h r₁.m₀ r₂.m₀ (fun s i => hag r₁.m₀ r₂.m₀ s i i₁ i₂) (blocksOf r₂.evs) s
+  unfold Replica.run
+  simp only [a₁.1, a₁.2, a₂.1, a₂.2, hb]
+  rw [c]
+
 /-- the seeded shape: a keeper-level cache whose hit costs less gas than its miss.  The same block history gives
 different transaction results on a node that was restarted in between, and on a node that served a simulation first -/
 theorem cached_gas_breaks_determinism :
@@ -243,6 +278,24 @@ theorem run_schedule_independent_source (σ₁ σ₂ : Sched) (ops : List Op) (s
   unfold run
   rw [unbond_order_from_store.1]
   exact run_schedule_independent σ₁ σ₂ ops st
+
+/-- the property for the modelled steps, both dimensions at once: two replicas of the block machine with different
+map-iteration schedules `σ₁ σ₂` AND different process histories (restarts, served CheckTx / simulations / queries — the
+machine keeps nothing in process memory) that were given the same blocks end in the same state with the same outputs -/
+theorem machine_replicas_agree (σ₁ σ₂ : Sched) (evs₁ evs₂ : List (Ev Op)) (hb : blocksOf evs₁ = blocksOf evs₂) (st : St) :
+    (Replica.run ⟨fun (_ : Unit) s op => ((), exec σ₁ s op), (), evs₁⟩ st) =
+    (Replica.run ⟨fun (_ : Unit) s op => ((), exec σ₂ s op), (), evs₂⟩ st) := by
+  apply replicas_agree _ _ (fun _ => True) (fun _ => True) trivial trivial (fun _ _ _ _ => trivial) (fun _ _ _ _ => trivial) _ hb
+  intro _ _ s op _ _
+  show (((), exec σ₁ s op) : Unit × St × Out).2 = (((), exec σ₂ s op) : Unit × St × Out).2
+  simp only [exec]
+  rw [unbond_order_from_store.1, exec_schedule_independent σ₁ σ₂ s op]
+
+/-- a tally loop that is left early (`accumulate+exit`) depends on the iteration order: the reviewed classes rightly do not
+admit it -/
+theorem early_exit_tally_schedule_dependent :
+    ∃ (l₁ l₂ : List Vec5), l₁.Perm l₂ ∧ tallyUntil 5 (0, 0, 0, 0, 0) l₁ ≠ tallyUntil 5 (0, 0, 0, 0, 0) l₂ :=
+  ⟨[(6, 0, 0, 0, 6), (0, 0, 3, 0, 3)], [(0, 0, 3, 0, 3), (6, 0, 0, 0, 6)], Perm.swap _ _ _, by decide⟩
 
 /-- the order of the two steps matters: unbonding is not commutative (unbonding ids, queue order, events) -/
 theorem unbond_order_observable :
